@@ -118,6 +118,9 @@ func c01Valid(p sPlan) bool {
 
 // c01Judge applies the C01 oracle to an observation.
 func c01Judge(obs *sigObs) (v *viol, recon int) {
+	if obs.Viol != nil {
+		return obs.Viol, 0
+	}
 	if obs.Err != nil {
 		return violf("harness", "%v", obs.Err), 0
 	}
